@@ -67,6 +67,11 @@ def run(tier, seed):
     its = items(tier)
     col = stepcheck.explore(its, MONS, H, D, who_fn=lambda sp: stepcheck.default_who(sp, project=True), seed=seed)
     col.merge(stepcheck.explore(stepcheck.edited_items(), MONS, 0, 0, seed=seed))  # runs after an earlier run and an in-place model edit
+    # the error_tol keyword of simulate() set to 0 (dyadic amounts reach exactly 0), large amounts, a team given a task while the run is stopped
+    extra = [(sp, dict(o, error_tol=0.0)) for sp, o in its[:: (11 if tier == "quick" else 3)]]
+    extra += [(sp, {"rule": "TSLACK", "max_time": 20}) for sp in F.large_amount_specs() + F.mixed_wiring_specs()]
+    extra += stepcheck.resumed_edit_items(("team-add-target",), ks=(1, 2, 3))
+    col.merge(stepcheck.explore(extra, MONS, 0, 0, seed=seed))
     meta = {
         "level": "model_checking",
         "rule": "every 3-task workflow over the four dependency kinds x work vectors and 4 parallel tasks x pooled/solo/mixed/dedicated/two-team layouts x task rules, "
